@@ -208,6 +208,7 @@ class MibCompiler(object):
         symbolTableMap = {}
         mibsToParse = [x for x in mibnames]
         canonicalMibNames = {}
+        fetchedMibs = set()
 
         while mibsToParse:
             mibname = mibsToParse.pop(0)
@@ -218,6 +219,10 @@ class MibCompiler(object):
 
             if mibname in failedMibs:
                 debug.logger & debug.flagCompiler and debug.logger('MIB %s already failed' % mibname)
+                continue
+
+            if mibname in fetchedMibs:
+                debug.logger & debug.flagCompiler and debug.logger('MIB %s already fetched' % mibname)
                 continue
 
             for source in self._sources:
@@ -256,6 +261,7 @@ class MibCompiler(object):
                             '%s (%s) read from %s, immediate dependencies: %s' % (
                                 mibInfo.name, mibname, fileInfo.path, ', '.join(mibInfo.imported) or '<none>'))
 
+                    fetchedMibs.add(mibname)
                     break
 
                 except error.PySmiReaderFileNotFoundError:
